@@ -233,8 +233,8 @@ def check_function(res: Result, src, sh, fname, fn, inputs, origin, rows=True):
 def shards(tier, seed):
     thorough = tier == 'thorough'
     out = []
-    n_gen, per_gen = (96, 300) if thorough else (32, 22)
-    n_x, per_x = (160, 300) if thorough else (48, 26)
+    n_gen, per_gen = (96, 300) if thorough else (32, 36)
+    n_x, per_x = (160, 300) if thorough else (48, 56)
     out += [('progen', i, per_gen, seed, tier) for i in range(n_gen)]
     out += [('c13gen', i, per_x, seed, tier) for i in range(n_x)]
     out += [('tmpl', i, seed, tier) for i in range(16 if thorough else 8)]
